@@ -79,6 +79,11 @@ CHECKS = {
     note="Trusted: TLC, the 8-line transcription of the __global__ entry in drv_kernel.cpp (device toolchains are not installed), Denote. 'thread gid writes exactly out[gid]' is tracked as drift only. One program class is a known finding (binary ufunc applied to another view).",
     technique="TLA+ model of the launch, all interleavings by TLC; TLC-simulated schedules replayed thread by thread on the real kernel body; trace validation by TLC",
     design="5/C13"),
+ "C14": dict(
+    text="Functional.tla models functors, composition and combinators as a stack machine over abstract terms; TLC checks associativity of composition for every split, that the computed arity is exactly what the machine consumes, that surplus operands are passed on, and combinator laws, on all compositions up to the bound; for the programs of the program machine the driver builds the composed view and the composed functor side by side and runs: the direct view, the composition applied at once and one operand at a time (currying), both groupings, the extracted composition applied to the extracted operands, the identity and order of the extracted operands, and structural facts of the compute graph; TraceOps.tla validates every variant against the program's denotation.",
+    note="Trusted: TLC, Functional.tla / Denote, drv_functional.cpp. Combinators are checked at design level only. flip / expand_dims are exercised in first position only (compile-time API limitation). One program class is a known finding (extraction for a binary ufunc applied to another view).",
+    technique="TLA+ stack-machine model checked by TLC; TLC-generated programs replayed on real functors/compositions/extraction; trace validation by TLC",
+    design="5/C14"),
 }
 
 NOT_APPLICABLE = {}
